@@ -11,6 +11,7 @@ import z3
 
 from . import common, e3, c04
 from .common import log
+from . import probes
 from .mir import engine as mir_engine, exec as mx
 
 PID = "C03"
@@ -42,8 +43,8 @@ def kernel(eng, obl, out):
             if ok:
                 obl.discharged += 1
             else:
-                out.violation("GenericParamSet::new", "-", "GenericParamSet::new does not insert exactly the unraw'd identifiers of the type and const parameters: path %s inserts %s" % (
-                    [str(c) for c in r.pc], [e[1][1][:80] for e in ins]))
+                probes.structural(out, "GenericParamSet::new", "GenericParamSet::new does not insert exactly the unraw'd identifiers of the type and const parameters: path %s inserts %s" % (
+                    [str(c) for c in r.pc], [e[1][1][:80] for e in ins]), 'C03.params')
     # --- Visitor::visit_path ----------------------------------------------------------------------
     ex2 = eng.executor(trace={"visit::visit_path", "HashSet::contains"}, slice_bound=1)
     cands = [f for name, fl in eng.fns.items() for f in fl if name.endswith("::visit_path") and "contains_in_type" in name]
@@ -68,7 +69,7 @@ def kernel(eng, obl, out):
         if any(e[0] == "visit::visit_path" for e in r.events):
             obl.discharged += 1
         else:
-            out.violation("visit_path-recursion", "-", "Visitor::visit_path does not continue the traversal into nested paths")
+            probes.structural(out, "visit_path-recursion", "Visitor::visit_path does not continue the traversal into nested paths", 'C03.params')
         # the lookup key is the unraw'd first segment (the set holds unraw'd identifiers)
         for e in r.events:
             if e[0] == "HashSet::contains":
@@ -76,10 +77,10 @@ def kernel(eng, obl, out):
                 if "unraw" in e[1][1] and "segments.[0]" in e[1][1]:
                     obl.discharged += 1
                 else:
-                    out.violation("visit_path-lookup-key", "-", "the parameter lookup does not use the unraw'd first path segment: HashSet::contains(%s)" % e[1][1][:120])
+                    probes.structural(out, "visit_path-lookup-key", "the parameter lookup does not use the unraw'd first path segment: HashSet::contains(%s)" % e[1][1][:120], 'C03.params')
     for label, model, info in obl.failed:
         if info and info[0] == "kernel":
-            out.violation("visit_path-flag", "-", info[1])
+            probes.structural(out, "visit_path-flag", info[1], 'C03.params')
     # any other override of the type visitor must continue the default traversal, otherwise parameter mentions below it are missed
     for name, fl in eng.fns.items():
         if "contains_in_type" in name and "<impl at" in name.split("contains_in_type")[-1] and not name.endswith("::visit_path") and not name.startswith("const "):
@@ -96,7 +97,7 @@ def kernel(eng, obl, out):
             if res3 and all(any(e[0] == "visit::" + meth for e in r.events) for r in res3 if r.kind == "return"):
                 obl.discharged += 1
             else:
-                out.violation("visitor-override|" + meth, "-", "the parameter-mention visitor overrides `%s` without continuing the traversal: mentions inside are not found" % meth)
+                probes.structural(out, "visitor-override|" + meth, "the parameter-mention visitor overrides `%s` without continuing the traversal: mentions inside are not found" % meth, 'C03.params')
 
 
 def run(tier):
@@ -138,11 +139,21 @@ def run(tier):
             e3.cross_check_solvers(obl, out)
     except mx.Inconclusive as e:
         out.inconclusive.append("fn=? reason=%s" % e)
+    # instantiation clause: programs whose observations are compile-time constants decided by rustc's trait solver (vlib/c03_inst.py)
+    from . import c03_inst, e1, kani_runner
+    progs = c03_inst.programs(tier, rnd)
+    stats = e1.run_batches(progs)
+    counts = kani_runner.triage(PID, progs, out)
+    log("[C03] instantiation programs: %s" % counts)
+    inst = {"instantiation_programs": len(progs), "instantiation_results": counts, "instantiation_kani_wall_s": round(stats["kani_wall_s"], 1),
+            "instantiation_rule": "one program per (trait family, generic shape): the real derive on X, the documented impl by hand on a twin; `X<P..>: Trait` == `twin<P..>: Trait` "
+                                  "for every instantiation of the type parameters by {PAll, PNone, P<only this trait>}; verdict: rustc's trait solver (constants), confirmed under Kani",
+            "instantiation_sample": progs[0].src[:1800] if progs else ""}
     return e3.finish(
-        PID, tier, t0, eng, obl, out,
+        PID, tier, t0, eng, obl, out, extra=inst,
         rule="every feasible MIR path of every builder is one case: its `push_bounds_for_field` events must be exactly the fields that the documented rule calls used "
              "(not debug-ignored / the transparent one, not comparison-ignored and compared by the default comparator, no explicit default value and no type-level value) "
              "under the path condition, given that the bound(..) chain reached its end; plus the paths of GenericParamSet::new and Visitor::visit_path",
         bounds="<=2 fields, 1 variant; comparison builders with ignore/by/key free on one helper attribute; slice bound 2 for generic parameter lists",
-        outside="the first sentence of the property - whether the generated impl applies to an instantiation is the verdict of rustc's trait solver over syn's traversal of the "
-                "field type (no encoding); syn::visit::visit_type's own traversal; build_default_for_enum")
+        outside="the first sentence of the property - whether the generated impl applies to an instantiation - has no solver encoding: it is rustc's trait solver's verdict, observed as "
+                "constants in the instantiation programs for the listed field-type grammar x probe types only; syn::visit::visit_type's own traversal; recursive types; more than 2 fields")
